@@ -115,6 +115,14 @@ def extreme(n):
 
 def check(case):
     """case = {"op","pairs":[(a,b)]} — a batch of evaluations of one cell."""
+    if case["op"] == "not":
+        sc = scenario.simple(case["src"], [{"id": "run", "argv": ["mscript", "run", "main.ms", "-q"], "env": ENV}],
+                             [{"kind": "stdout_eq", "step": "run", "value": case["expect"]}, {"kind": "exit", "step": "run", "in": ["ok"]}])
+        res, fails, _ = scenario.execute(sc)
+        r = CaseResult(evals=4, nt_keys=["!true", "!false"], labels=["op=!"], sample={"op": "!", "source": case["src"]})
+        if fails:
+            r.failure = fail("boolean not: " + "; ".join(fails), "C05:!:bool:value:wrong-value", sc, case={"op": "!"})
+        return r
     op, pairs = case["op"], case["pairs"]
     ok_pairs, lone = [], []
     for a, b in pairs:
@@ -166,8 +174,14 @@ def chunks(l, n):
     return [l[i:i + n] for i in range(0, len(l), n)]
 
 
+def not_case():
+    """`!` on both boolean values, operand in a run-time variable (typed print shows kind bool)"""
+    src = 't: bool = true\nf: bool = false\nprint !t\nprint !f\nprint !(!t)\nu = 3 < 5\nprint !u\n'
+    return {"op": "not", "src": src, "expect": "bool:false\nbool:true\nbool:true\nbool:false\n"}
+
+
 def enumerated(tier, seed):
-    cases = []
+    cases = [not_case()]
     B = lambda k: num.boundary(k, tier)
     for k1 in num.KINDS:
         for k2 in num.KINDS:
